@@ -122,6 +122,7 @@ class State:
         self.variants = {}    # key -> frozenset(variant names)
         self.sums = {}        # (a, b) sorted -> (lo, hi): bounds on sym a + sym b
         self.exprs = {}       # sid -> ("add"|"sub", termA, termB): sid == A + B / A - B exactly
+        self.holes = {}       # sid -> frozenset of integers the symbol is known not to equal (inside its interval)
         self.dead = False
 
     def sum_bound(self, a, b):
@@ -144,8 +145,18 @@ class State:
         s.syms = dict(self.syms)
         s.diffs = dict(self.diffs)
         s.variants = dict(self.variants)
+        s.holes = dict(self.holes)
         s.dead = self.dead
         return s
+
+    def excluded(self, t, c):
+        """is the integer c impossible for term t"""
+        if t[0] == "c":
+            return t[1] != c
+        lo, hi = self.itv_term(t)
+        if c < lo or c > hi:
+            return True
+        return (c - t[2]) in self.holes.get(t[1], ())
 
     # ---- terms: ('c', n) | ('s', sid, off) -----------------------------------------------------
     def term(self, v):
@@ -276,6 +287,21 @@ class State:
                     self.refine_sym(a[1], (c + 1 - a[2], INF))
                 elif hi == c:
                     self.refine_sym(a[1], (-INF, c - 1 - a[2]))
+                elif lo < c < hi:
+                    hs = self.holes.get(a[1], frozenset())
+                    if len(hs) < 16:
+                        self.holes[a[1]] = hs | {c - a[2]}
+                # shrink the interval past holes at its ends
+                lo, hi = self.syms.get(a[1], (-INF, INF))
+                hs = self.holes.get(a[1], ())
+                while lo != -INF and lo <= hi and lo in hs:
+                    lo += 1
+                while hi != INF and hi >= lo and hi in hs:
+                    hi -= 1
+                if (lo, hi) != self.syms.get(a[1], (-INF, INF)):
+                    self.syms[a[1]] = (lo, hi)
+                    if lo > hi:
+                        self.dead = True
             elif a[1] == c:
                 self.dead = True
         elif ia[0] == ia[1]:
@@ -369,6 +395,30 @@ def join_states(states, bb, body):
         for s in states[1:]:
             itv = ijoin(itv, s.syms[sid])
         out.syms[sid] = itv
+    for sid in sk:
+        hs = None
+        for s in states:
+            h = s.holes.get(sid, frozenset())
+            hs = h if hs is None else (hs & h)
+        if hs:
+            out.holes[sid] = hs
+    for k in keys:
+        v = out.vals.get(k)
+        if v is None or v.sym is None or not v.sym[0].startswith("phi:%d:" % bb) or v.sym[1] != 0:
+            continue
+        cands = set()
+        terms = []
+        for s in states:
+            t_ = s.term(s.vals[k])
+            terms.append(t_)
+            if t_ is not None and t_[0] == "s":
+                cands |= {h + t_[2] for h in s.holes.get(t_[1], ())}
+        if cands and all(t_ is not None for t_ in terms):
+            hs = frozenset(c for c in cands if all(s.excluded(t_, c) for s, t_ in zip(states, terms)))
+            lo, hi = out.syms.get(v.sym[0], (-INF, INF))
+            hs = frozenset(c for c in hs if lo <= c <= hi)
+            if hs:
+                out.holes[v.sym[0]] = hs
     dk = set(states[0].diffs)
     for s in states[1:]:
         dk &= set(s.diffs)
@@ -478,7 +528,7 @@ def join_states(states, bb, body):
 def states_equal(a, b):
     if a is None or b is None:
         return a is b
-    if a.vals != b.vals or a.variants != b.variants or a.diffs != b.diffs or a.sums != b.sums or a.exprs != b.exprs:
+    if a.vals != b.vals or a.variants != b.variants or a.diffs != b.diffs or a.sums != b.sums or a.exprs != b.exprs or a.holes != b.holes:
         return False
     used = set()
     for v in a.vals.values():
@@ -519,6 +569,7 @@ class Analyzer:
             if rv["k"] in ("ref", "rawptr"):
                 self.addr_taken.add(rv["place"]["l"])
         self.results = {}       # bb -> state before terminator
+        self.threaded = set()   # statement-free switch blocks some incoming edge was threaded through
 
     # ---- keys ------------------------------------------------------------------------------------
     def pkey(self, st, place):
@@ -579,6 +630,7 @@ class Analyzer:
         if v.sym and v.sym[0] not in st.syms:
             r = ty_range(v.ty) if v.ty else None
             st.syms[v.sym[0]] = r if r else (-INF, INF)
+            st.holes.pop(v.sym[0], None)
         if v.len and v.len[0] == "s" and v.len[1] not in st.syms:
             st.syms[v.len[1]] = (0, (1 << 63) - 1)
         return v
@@ -1130,6 +1182,8 @@ class Analyzer:
             else:
                 tv = s2.term(v)
                 if tv is not None:
+                    if s2.excluded(tv, val):
+                        continue
                     s2.assume_eq(tv, ("c", val))
             if not s2.dead:
                 out.append((tgt, s2))
@@ -1246,12 +1300,33 @@ class Analyzer:
             self.results[bb] = st
             t = blk["term"]
             outs = self.transfer_term(st, t, bb)
+            produced = set()
             for tgt, s2 in outs:
                 if body.blocks[tgt]["cleanup"]:
                     continue
-                edge_out[(bb, tgt)] = s2
-                preds = [p for p in self.cfg.pred[tgt] if (p, tgt) in edge_out]
-                new_in = join_states([edge_out[(p, tgt)] for p in preds], tgt, body)
+                # jump threading: a statement-free block that only switches on a local whose value is a constant in this
+                # incoming state is passed through per edge (keeps `matches!` / `&&` / `||` diamonds path-sensitive)
+                via = ()
+                while len(via) < 4 and tgt not in self.loop_heads:
+                    tb = body.blocks[tgt]
+                    tt = tb["term"]
+                    if tt["k"] != "switch" or tt["d"]["k"] not in ("copy", "move") or tt["d"]["place"]["p"] or tb["cleanup"]:
+                        break
+                    if any(x["k"] == "assign" for x in tb["stmts"]):
+                        break
+                    dv = s2.vals.get("_%d" % tt["d"]["place"]["l"])
+                    if dv is None or dv.const is None:
+                        break
+                    nxt = self.switch_edges(s2, tt, tgt)
+                    if len(nxt) != 1 or body.blocks[nxt[0][0]]["cleanup"]:
+                        break
+                    self.threaded.add(tgt)
+                    via = via + (tgt,)
+                    tgt, s2 = nxt[0]
+                key = (bb, tgt, via)
+                produced.add(key)
+                edge_out[key] = s2
+                new_in = join_states([es for ek, es in edge_out.items() if ek[1] == tgt], tgt, body)
                 if new_in is None:
                     continue
                 if tgt in self.loop_heads and visits.get(tgt, 0) >= 2:
@@ -1261,9 +1336,8 @@ class Analyzer:
                     if tgt not in work:
                         work.append(tgt)
             # edges not produced (infeasible) are dropped
-            for tgt in self.cfg.succ[bb]:
-                if (bb, tgt) in edge_out and tgt not in [x for x, _ in outs]:
-                    del edge_out[(bb, tgt)]
+            for ek in [ek for ek in edge_out if ek[0] == bb and ek not in produced]:
+                del edge_out[ek]
         return self
 
     def _rpo(self):
